@@ -276,7 +276,9 @@ def encode_check(chk, run, modes=('ra', 'cur')):
                     'kind': 'impl≠spec', 'config': {'cxx': cxx, 'std': std}, 'schema_xml': open(c.xml).read(),
                     'message': m['name'], 'driver_line': line,
                     'observed': {'impl': io[:2000], 'expected': ek},
-                    'case': {'what': 'encode', 'mode': mode, 'differs': what, 'st': ik.get('st'), 'cxx': cxx, 'std': std}})
+                    'case': {'what': 'encode', 'mode': mode, 'differs': what, 'st': ik.get('st'), 'cxx': cxx, 'std': std,
+                             'root_members': len(m['level']['leaves']) + len(m['level']['groups'])
+                             + len(m['level']['datas'])}})
             if len(chk.cov['samples']) < 4:
                 chk.sample({'message': m['name'], 'mode': mode, 'driver_line': line[:200], 'expected': ek['expect'][:120]})
     chk.cov['distinct_nontrivial'] += len(nontrivial)
